@@ -35,7 +35,8 @@ RULE = ("cases = (schema, count n in {0,1,2,7} or generate_one, stream): schemas
         "namespaces, defaults, recursion through unions/arrays/maps) extended with every known logical type on its base type "
         "(int-date, int-time-millis, long-time-micros, long-(local-)timestamp-millis/micros, string-uuid, bytes-decimal, fixed-decimal "
         "with valid precision/scale), logical names on the wrong base type, + a fixed pool (every leaf alone, fixed size 0, 1-symbol enum, "
-        "union of named references, reference to a logical-typed fixed, Node list, trees, F12 shapes); streams boundary-biased (each draw is "
+        "union of named references, reference to a logical-typed fixed, Node list, trees, F12 shapes); half of the type names, namespaces, "
+        "field names and enum symbols contain Avro keywords (Subfields, typeOf, com.acme.fields.X, symbol 'fields_0', ...), inline and by reference; streams boundary-biased (each draw is "
         "the minimum / maximum of its range with probability 0.15 each: extreme date ordinals, time 0 / last unit of the day, timestamp "
         "caps, first / last union branch and enum symbol, all-zero / all-one bytes and uuids, 0.0 and 1-2^-53); raw or pre-parsed schema; "
         "schemas whose worst-case number of draws exceeds the cap are not used; for types recursive through a union the stream is planned "
@@ -422,12 +423,86 @@ WRONG_BASE = [("long", "date"), ("string", "date"), ("int", "time-micros"), ("lo
               ("float", "decimal"), ("null", "uuid")]
 
 
-class LogicalSchemaGen(gen.SchemaGen):
-    """gen.SchemaGen plus the logical types"""
+# identifiers that CONTAIN Avro keywords (a by-name reference is a str: `"fields" in schema` is then a substring test)
+KEYWORDY = ["Subfields", "typeOf", "itemsList", "null_able", "longer", "recordKeeper", "metafields", "enumerated", "fixedPoint",
+            "mapper", "arrayOf", "unionized", "default_", "stringy", "bytesize", "sizeOf", "symbolsTable", "valuesOf", "nameTag",
+            "interval", "doubled", "floaty", "booleanish", "errors", "request_", "logicalTypes", "aliases_", "namespaced", "order_",
+            "my_fields_x", "a_type", "the_name", "symbols", "fields", "items", "values", "size", "type_", "name_"]
+KEYWORDY_NS = ["com.acme.fields", "meta.type.name", "items.values", "symbols.size", "x.nullable.y", "record.enums", "fields"]
 
-    def __init__(self, rng, max_depth=3, p_logical=0.3):
+
+def keywordize(raw, rng, p=0.35):
+    """rename field names and enum symbols of a raw schema IN PLACE to keyword-like identifiers (consistently: enum defaults and the
+    defaults of fields of an inline enum type follow)"""
+    if isinstance(raw, list):
+        for b in raw:
+            keywordize(b, rng, p)
+    elif isinstance(raw, dict):
+        t = raw.get("type")
+        if t == "enum" and rng.random() < p:
+            ren = {}
+            for i, x in enumerate(raw["symbols"]):
+                ren[x] = rng.choice(KEYWORDY).replace(".", "_") + "_%d" % i
+            raw["symbols"] = [ren[x] for x in raw["symbols"]]
+            if raw.get("default") in ren:
+                raw["default"] = ren[raw["default"]]
+            raw["__renamed_symbols"] = ren
+        elif t in ("record", "error"):
+            used = {f["name"] for f in raw["fields"]}
+            for f in raw["fields"]:
+                keywordize(f["type"], rng, p)
+                ft = f["type"]
+                if isinstance(ft, dict) and "__renamed_symbols" in ft and f.get("default") in ft["__renamed_symbols"]:
+                    f["default"] = ft["__renamed_symbols"][f["default"]]
+                if rng.random() < p:
+                    new = rng.choice(KEYWORDY)
+                    if new not in used:
+                        used.add(new)
+                        f["name"] = new
+        elif t == "array":
+            keywordize(raw["items"], rng, p)
+        elif t == "map":
+            keywordize(raw["values"], rng, p)
+    return raw
+
+
+def drop_rename_marks(raw):
+    if isinstance(raw, list):
+        for b in raw:
+            drop_rename_marks(b)
+    elif isinstance(raw, dict):
+        raw.pop("__renamed_symbols", None)
+        for k in ("items", "values"):
+            if k in raw:
+                drop_rename_marks(raw[k])
+        for f in raw.get("fields", []) if isinstance(raw.get("fields"), list) else []:
+            drop_rename_marks(f["type"])
+    return raw
+
+
+class LogicalSchemaGen(gen.SchemaGen):
+    """gen.SchemaGen plus the logical types, and names / namespaces that contain Avro keywords"""
+
+    def __init__(self, rng, max_depth=3, p_logical=0.3, p_keyword=0.5):
         super().__init__(rng, max_depth=max_depth)
         self.p_logical = p_logical
+        self.p_keyword = p_keyword
+
+    def fresh(self, kind):
+        if self.rng.random() < self.p_keyword:
+            self.counter += 1
+            return self.rng.choice(KEYWORDY) + str(self.counter)
+        return super().fresh(kind)
+
+    def name_attrs(self, kind, ns):
+        rng = self.rng
+        if rng.random() < self.p_keyword * 0.6:
+            base = self.fresh(kind)
+            n2 = rng.choice(KEYWORDY_NS)
+            if rng.random() < 0.5:
+                return {"name": base, "namespace": n2}, n2 + "." + base, n2
+            return {"name": n2 + "." + base}, n2 + "." + base, n2
+        return super().name_attrs(kind, ns)
 
     def decimal_attrs(self, maxp):
         p = self.rng.randint(1, maxp)
@@ -512,6 +587,15 @@ POOL = [
         {"type": "map", "values": "int"}]}]},
     [L("string", "uuid"), {"type": "enum", "name": "E2", "symbols": ["A", "B"]}],
     [{"type": "array", "items": "long"}, "bytes"], ["long", L("int", "date")], [L("long", "time-micros"), L("int", "date")],
+    {"type": "record", "name": "Holder", "namespace": "com.acme.fields", "fields": [
+        {"name": "fields", "type": {"type": "record", "name": "Subfields", "fields": [{"name": "type", "type": "int"}, {"name": "name", "type": "string"}]}},
+        {"name": "items", "type": {"type": "array", "items": "Subfields"}},
+        {"name": "values", "type": {"type": "map", "values": "com.acme.fields.Subfields"}},
+        {"name": "symbols", "type": {"type": "enum", "name": "symbolsTable", "symbols": ["fields", "type", "null_", "record"]}},
+        {"name": "size", "type": {"type": "fixed", "name": "sizeOf", "size": 2}},
+        {"name": "again", "type": ["null", "Subfields", "symbolsTable", "sizeOf"]}]},
+    {"type": "array", "items": {"type": "record", "name": "metafields", "fields": [{"name": "next", "type": ["null", "metafields"]},
+                                                                                       {"name": "default_", "type": "long", "default": 3}]}},
     NODE, TREE, ROSE, ROSEMAP,
 ]
 
@@ -1283,6 +1367,8 @@ def run(ctx):
     while len(entries) < len(POOL) + n_random:
         g = LogicalSchemaGen(rng, max_depth=rng.choice([2, 3, 3, 4]), p_logical=rng.choice([0.0, 0.25, 0.4]))
         raw = g.schema(top=True)
+        if rng.random() < 0.5:
+            raw = drop_rename_marks(keywordize(raw, rng))
         if not valid_for_statement(raw):
             invalid += 1
             continue
@@ -1301,7 +1387,13 @@ def run(ctx):
     ctx.notes.update(schemas=len(entries), schemas_rejected_by_parse=rejected, schemas_over_draw_cap=too_big,
                      schemas_with_duplicate_field_names_skipped=invalid, never_returning_schemas=len(f12),
                      cyclic_schemas=sum(1 for e in entries if e.cyclic),
-                     schemas_with_logical_types=sum(1 for e in entries if features(e) != "plain"))
+                     schemas_with_logical_types=sum(1 for e in entries if features(e) != "plain"),
+                     schemas_with_keyword_like_type_names=sum(1 for e in entries if any(any(k in n for k in ("fields", "type", "name", "items",
+                         "values", "symbols", "size", "null", "long", "int", "record", "enum", "fixed", "map", "array", "union", "default",
+                         "string", "bytes")) for n in e.named)),
+                     schemas_referring_to_keyword_like_names=sum(1 for e in entries if any(
+                         any(k in r for k in ("fields", "type", "items", "values", "symbols", "null", "record", "map", "string"))
+                         for r in (refs_of(e.parsed, set()) | set().union(*[refs_of(v, set()) for v in e.named.values()] or [set()])))))
 
     # ---- execute the implementation
     runs = []
